@@ -305,3 +305,4 @@ def check(ctx, rep):
     shared.unused_params(ctx, rep, "C05.PARAM", ["spec_classes.utils.mutation", "spec_classes.methods.scalar", "spec_classes.methods.toplevel"])
     metarules.preparer_registration(ctx, rep, "C05.PREP")
     shared.mutable_defaults(ctx, rep, "C05.STATE")
+    metarules.preparer_always(ctx, rep, "C05.PREPALL")
